@@ -979,6 +979,7 @@ def eval_cases2(ck: Ck, cases: list[dict]) -> None:
 # =============================================================================================== main
 def run(ck: Ck) -> None:
     ck.level = 'proof'
+    ck.extra['secondary_level'] = 'fault_enumeration (every kill point, every single OSError, every interleaving, executed)'
     ck.rule = ('scenario = (destination old/new/nested/named like a temp file, stale tmp_N files, chunk list, buffer size '
                '1/small/8192, bytes or text, body raising after j writes, BSP.save of a cut-down real map). For each scenario '
                'the real code is run fault-free, then killed (os._exit in a forked child) after k operations for EVERY k, '
